@@ -3261,8 +3261,16 @@ def c11(tier, seed):
     texts = list(dict.fromkeys(texts))
     # "hang" means no answer within the time limit; long structured inputs get a generous one (a default build prints the
     # parser stack at every reduction: quadratic in the length of a chain, slow but terminating)
-    jobs = [{"id": i + 1, "text": t, "store": True, "timeout_ms": 1500 if len(t) < 2000 else 240000} for i, t in enumerate(texts)]
+    jobs = [{"id": i + 1, "text": t, "store": True, "timeout_ms": 1500 if len(t) < 400 else 240000} for i, t in enumerate(texts)]
     results, died = run_expr_jobs(jobs, wd, name="fuzz", chunk=5000)
+    # no verdict from load: an input that did not answer within the short limit is evaluated again on its own with a limit
+    # of 40 s (at most 6 such inputs; an evaluation that blocks on a lock does not come back then either)
+    slow = [j for j in jobs if (results.get(j["id"]) or {}).get("hang") and j["timeout_ms"] < 40000][:6]
+    for j in slow:
+        r2, d2 = run_expr_jobs([dict(j, timeout_ms=40000)], wd, name="fuzzagain%d" % j["id"], chunk=5000)
+        if r2.get(j["id"]) is not None and not r2[j["id"]].get("hang"):
+            log("[C11] %r answered within 40 s on its own (no hang)" % j["text"][:60])
+            results[j["id"]] = r2[j["id"]]
     died_ids = {j["id"]: (rc, msg) for (j, rc, msg) in died}
     recs = []
     for j in jobs:
